@@ -180,3 +180,20 @@ package vaa
 //@   ensures [header] v1.Version == v2.Version && v1.GuardianSetIndex == v2.GuardianSetIndex && len(v1.Signatures) == len(v2.Signatures)
 //@   ensures [signatures] forall i in 0..len(v1.Signatures) :: v1.Signatures[i].Index == v2.Signatures[i].Index && v1.Signatures[i].Signature == v2.Signatures[i].Signature
 //@   ensures [body] bodyOf(v1) == bodyOf(v2)
+
+// ---------------------------------------------------------------- helpers that only format (no-panic only)
+
+//@ func (c ChainID) String() (s string)
+//@   props C13
+//@   nopanic
+
+//@ func (v *VAA) MessageID() (s string)
+//@   props C13
+//@   requires v != nil
+//@   nopanic
+
+//@ func (v *VAA) HexDigest() (s string)
+//@   props C13
+//@   requires v != nil
+//@   modifies fresh lib:bytes.Buffer.b
+//@   nopanic
